@@ -134,6 +134,7 @@ class SimFS:
     def _op(self, kind, name):
         i = self.nops
         self.nops += 1
+        self.world.op_trace["fs"].append(kind)
         f = self.faults.pop(i, None)
         if f is not None:
             self.world.fired(f[0], "%s:%s" % (kind, _suffix(name)))
@@ -188,6 +189,7 @@ class SimFS:
 
     def unlink(self, name):
         self.nops += 1
+        self.world.op_trace["fs"].append("unlink")
         if name not in self.files:
             raise FileNotFoundError(errno.ENOENT, "No such file (sim)", name)
         del self.files[name]
@@ -558,6 +560,7 @@ class SimWorld:
         self.draw_cap = None
         self.peer_models = []
         self.peer_inputs = []
+        self.op_trace = {"fs": [], "peer": []}      # kind of every file / peer operation by index (fault-sweep placements)
         self.fs = SimFS(self)
         self.peer = PeerPolicy(self, self.knobs["peer"])
         self.rng = ScriptedRandom(self, self.knobs["rng_mode"])
@@ -605,6 +608,7 @@ class SimWorld:
     def peer_fault(self, site):
         i = self._peer_ops
         self._peer_ops += 1
+        self.op_trace["peer"].append(site)
         k = self._peer_faults.pop(i, None)
         if k is None:
             return None
